@@ -308,8 +308,9 @@ from .rules import effects  # noqa: E402
              "in block-context attributes or returned by to_json; (R-OWN(context)) only the analyses write context attributes - a "
              "detector cannot change what another reads; (T-STORE) stored lists are functions of the computed sets only; (T-HISTORY) the "
              "predicate and report-condition closures a detector's detect() hands to the path search give the same verdict per context / "
-             "path whatever was asked before (two contracts whose blocks share ids, both orders, repeated); (R-DEFAULT) no mutable "
-             "default arguments. "
+             "path whatever was asked before (two contracts whose blocks share ids, both orders, repeated); thorough tier: (T-HISTORY(runs)) "
+             "whole runs with the real analyses give the same contexts and JSON results after another contract, with the detectors "
+             "registered in the opposite order, and when run twice; (R-DEFAULT) no mutable default arguments. "
              "Not decided: uniqueness of the fixpoint under different worklist orders; byte-identity of whole outputs.")
 def c14(ctx, rep):
     effects.rule_shared_roots(ctx, rep)
@@ -331,7 +332,10 @@ from .rules import spelling  # noqa: E402
              "actions give the same table cell; (T-SPELL(intc)) int / pushint / intc / intc_k give the same cell, unresolvable intc gives no "
              "information, constant block resolved only when unique and in the entry block; (R-DOOR) constants are recognised only through "
              "is_int_push_ins / is_byte_push_ins; (T-REWRITE) label renaming, comments, blank lines, indentation leave the graph of 30 "
-             "program shape classes unchanged. Not decided: the metamorphic relation on verdicts (padding insertion, moving subroutines).")
+             "program shape classes unchanged; (T-PAD) padding at statement boundaries. The thorough tier adds (T-META(sweep)): ~580 enumerated "
+             "programs of the direct-check fragment x 7 rewritings (layout, hex, octal, pushint, intcblock/intc, padding, all together) - the "
+             "per-block contexts and the rekey-to paths of the rewritten program equal those of the original. Not decided: the metamorphic "
+             "relation for all programs and all compositions; moving subroutine bodies.")
 def c15(ctx, rep):
     spelling.rule_int_spellings(ctx, rep)
     spelling.rule_named_constants(ctx, rep)
